@@ -64,6 +64,9 @@ func verifSame(a, b vaxis.Style) bool {
 // NewStyledString and the embedded terminal (real parser + (*Model).sgr + print).
 func VerifC18Agreement() {
 	colours := zzverif.Param("colours") != 0
+	if colours && zzverif.Bool("forceLegacySGR") {
+		vaxis.VerifForceLegacySGR()
+	}
 	c1 := vaxis.Cell{Character: vaxis.Character{Grapheme: "a", Width: 1}}
 	if zzverif.Param("first") != 0 {
 		c1.Style = verifSymStyle("s1", colours)
